@@ -189,6 +189,16 @@ func (mdb *memdb) deleteBodyID(bodyid uint64) {
 	mdb.ids = append(mdb.ids[:i], mdb.ids[i+1:]...)
 }
 
+// decrement the count of annotations carrying a field, dropping the field when
+// no annotation carries it anymore (as a count from the store would).
+func (mdb *memdb) decrementField(field string) {
+	if mdb.fields[field] <= 1 {
+		delete(mdb.fields, field)
+	} else {
+		mdb.fields[field]--
+	}
+}
+
 // add an annotation to the in-memory DB in batch mode assuming ids are sorted later
 func (mdb *memdb) addAnnotation(bodyid uint64, annotation NeuronJSON) {
 	mdb.data[bodyid] = annotation
